@@ -500,8 +500,10 @@ func cmdCheck(args []string) int {
 		if _, ok := known[name]; ok {
 			continue
 		}
-		// safety obligations carry ordinals that may shift; only contract obligations are required to persist
-		if strings.Contains(name, "/safety/") {
+		// Only obligations that come from a contract clause (postconditions, loop invariants, lemmas) are required to
+		// persist: safety, lockset, lock, monitor, call-site and frame obligations exist per program point, and their
+		// number and ordinals legitimately change when the code is edited (they are still checked when generated).
+		if !(strings.Contains(name, "/post:") || strings.Contains(name, "/inv-") || strings.HasPrefix(name, "lemma/")) {
 			continue
 		}
 		o := &Obl{Name: name, Kind: "missing", Status: "missing", Output: "obligation in obligations.lock.json was not generated by this run (function gone, left the supported subset, or contract no longer binds)"}
